@@ -20,8 +20,12 @@ Rem(f, k) == [x \in DOMAIN f \ {k} |-> f[x]]
 
 IMInit == tabs = <<Empty>>
 
+\* A value is a record [ty, n]: ty is "i" (int32), "f" (float64), "b" (uint8) or "u" (an untyped integer constant).
+\* Assign is the store to a declared field: an untyped constant takes the type of the value it replaces AT THAT KEY
+\* (wrapping to 8 bits for a uint8 field); a typed value is stored as it is.
+Adopt(v, old) == IF v.ty = "u" THEN [ty |-> old.ty, n |-> IF old.ty = "b" THEN v.n % 256 ELSE v.n] ELSE v
 ISet(t, k, v)    == tabs' = [tabs EXCEPT ![t] = Upd(@, k, v)]
-IAssign(t, k, v) == tabs' = [tabs EXCEPT ![t] = IF k \in DOMAIN @ THEN Upd(@, k, v) ELSE @]
+IAssign(t, k, v) == tabs' = [tabs EXCEPT ![t] = IF k \in DOMAIN @ THEN Upd(@, k, Adopt(v, @[k])) ELSE @]
 IDelete(t, k)    == tabs' = [tabs EXCEPT ![t] = Rem(@, k)]
 ICopy(t)         == tabs' = Append(tabs, tabs[t])
 IRead            == UNCHANGED tabs
